@@ -141,6 +141,17 @@ def run(res, tier):
             n_sa += 1
             chk = [c for c in f.walk() if c.is_call() and (c.get('q') or '').endswith('String::IsCharInLocalArray') and any(x['k'] == 'DeclRefExpr' and x.get('d') == p_['d'] for x in c.walk())]
             ok = bool(chk) and all(P.must_precede(f, chk, g) for g in grow)
+            # … and found FALSE: the diversion to a temporary copy must not depend on anything but the alias test (moving the contents in place — memmove opening a gap — clobbers an
+            # aliased operand just as a reallocation does)
+            if ok:
+                chk_ids = set(c['i'] for c in chk)
+                for g in grow:
+                    paths, complete = C.paths_between(f, (f.entry, -1), P.pos_of(f, g))
+                    if not complete or not paths:
+                        ok = False
+                    for asg in paths:
+                        if not any(not t and (cid in chk_ids or any(x['i'] in chk_ids for x in f.nodes[cid].walk())) for cid, t in asg.items()):
+                            ok = False
             res.ob('SELF-ALIAS', f.where(), '%s evaluates IsCharInLocalArray(%s) on every path before the buffer can move' % (f.q.split('::')[-1], p_.get('n')), ok, function=f.q, key='SELF-ALIAS|%s' % f.q,
                    message='%s can reallocate (or move from the inline buffer to the heap) before it reads from `%s` without having tested whether that pointer refers into the string itself: '
                            's += s() on a short string appends bytes of the overwritten inline storage (pointer/length fields) instead of the text' % (f.q, p_.get('n')))
